@@ -26,7 +26,13 @@ fam('annot_keys', depth=3, maxstack=4,
     alphabet=[('GETK',), ('MEM',), ('SEQ', (('UNPAIR', 3), ('PAIR', 3))), DUP(1), DUP(2), ('SWAP',), ('SEQ', (PUSH(OPT(NAT), some(i(9))), ('SWAP',), ('UPDATEK',))),
               ('SEQ', (PUSH(BOOL, T_), ('SWAP',), ('UPDATEK',))), ('SIZE',), ('COMPARE',)])
 
-FAMS = ['comb', 'annot_text', 'annot_keys', 'adt', 'optlist', 'types_map', 'types_list']
+# lambdas whose (annotated) argument type is a pair: APPLY takes the type apart, EXEC runs the body on values of the annotated types
+fam('annot_lambda', depth=4, maxstack=3,
+    inits=[(S(NAT, i(1)),), (S(P(NAT, NAT), p(i(5), i(6))), S(NAT, i(1)))],
+    alphabet=[('LAMBDA', P(NAT, NAT), NAT, (('CAR',),)), ('LAMBDA', P(NAT, P(NAT, NAT)), NAT, (('CDR',), ('CAR',))), ('LAMBDA', P(NAT, NAT), P(NAT, NAT), (('UNPAIR', 2), ('SWAP',), ('PAIR', 2))),
+              ('APPLY',), ('EXEC',), PUSH(NAT, i(2)), ('SWAP',), ('DIG', 2)])
+
+FAMS = ['comb', 'annot_text', 'annot_keys', 'adt', 'optlist', 'types_map', 'types_list', 'annot_lambda']
 SCHEMES = ['field-all', 'type-all', 'both-all', 'field-inner-pairs', 'type-inner-pairs']
 
 
@@ -183,7 +189,7 @@ def run(ctx):
     fams = {}
     for name in FAMS:
         fams[name] = dict(vmfam.FAMILIES[name])
-        if ctx.quick and name not in ('comb', 'annot_text', 'annot_keys'):
+        if ctx.quick and name not in ('comb', 'annot_text', 'annot_keys', 'annot_lambda'):
             fams[name]['depth'] = 2
     C01.ASPECTS['C17'] = {'status', 'value', 'type', 'failwith-value'}
     C01.run_families(ctx, 'C17', 'annot', fams, replay_fn=replay_fn)
